@@ -346,7 +346,7 @@ def check_states(run_params: Params, env: Env = None) -> bool:
         elif action_if_root_exists == "f":
             root_params["pool_scope"] = "own"
             # TODO: implement unset root for all parametric object types
-            if params_obj_type == "nets/vms":
+            if params_obj_type in ["vms", "nets/vms"]:
                 vm.destroy(
                     gracefully=root_params.get_dict("check_opts").get(
                         "soft_boot", "yes"
